@@ -1,6 +1,7 @@
 package main
 
 import (
+	"go/types"
 	"flag"
 	"fmt"
 	"os"
@@ -127,6 +128,7 @@ func cmdVC(args []string) {
 	timeout := fs.Int("t", 5000, "solver timeout ms")
 	only := fs.String("only", "", "substring filter on obligation names")
 	keep := fs.String("keep", "", "directory to keep query files in")
+	synth := fs.String("synth", "", "verify against a synthesised frame contract: pure|roif|impure[:param,param]")
 	target, args := splitTarget(args)
 	fs.Parse(args)
 	if target == "" {
@@ -162,7 +164,40 @@ func cmdVC(args []string) {
 			opts.errprop = true
 		}
 	}
-	vc, err := P.generateFixpoint(fn, P.contractFor(fn), opts, *timeout)
+	con := P.contractFor(fn)
+	if *synth != "" {
+		// install the inferred summaries of everything else first
+		fastMode = true
+		P.inferFramesWith(P.readonlyHandlers(), 3000, loadFrameOverrides(P.verif))
+		fastMode = false
+		parts := strings.SplitN(*synth, ":", 2)
+		inf := &inferred{fn: fn}
+		for _, p := range fn.Params {
+			ts := types.TypeString(deref(p.Type()), nil)
+			if strings.HasSuffix(ts, "yqlib.Context") && inf.ctxName == "" && p.Name() != "_" {
+				inf.ctxName = p.Name()
+			}
+		}
+		if res := fn.Signature.Results(); inf.ctxName != "" && res.Len() == 2 && strings.HasSuffix(types.TypeString(res.At(0).Type(), nil), "yqlib.Context") {
+			inf.keepsMode = true
+		}
+		switch parts[0] {
+		case "roif":
+			inf.class = clsROIf
+		case "impure":
+			inf.class = clsImpure
+		}
+		con = P.synthContract(inf)
+		if len(parts) == 2 {
+			for _, pn := range strings.Split(parts[1], ",") {
+				con.Modifies = append(con.Modifies, &Clause{Kind: "modifies", Text: pn + ".all", Expr: mustParse(pn + ".all")}, &Clause{Kind: "modifies", Text: pn + ".Content[*]", Expr: mustParse(pn + ".Content[STAR]")})
+				con.HasMod = true
+			}
+		}
+		P.setContract(P.relName(fn), con)
+		opts = genOpts{frames: true, functional: true, assumeTypeAsserts: true}
+	}
+	vc, err := P.generateFixpoint(fn, con, opts, *timeout)
 	if err != nil {
 		fmt.Fprintln(os.Stderr, "generation failed:", err)
 		os.Exit(2)
